@@ -3,6 +3,7 @@ CONSTANTS
   Scope = "quick"
   MemoFinalOnly = FALSE
   DedupeNeighbour = FALSE
+  LexicalClean = FALSE
   MaxSteps = 40
 CHECK_DEADLOCK FALSE
 INVARIANT GenCases
